@@ -19,6 +19,7 @@ VERIF = os.path.dirname(os.path.dirname(os.path.abspath(__file__)))
 sys.path.insert(0, os.path.join(VERIF, 'sim'))
 sys.path.insert(0, VERIF)
 
+import numpy as np
 import simworld                                   # noqa: E402
 from simworld import World, Violation            # noqa: E402
 
@@ -210,7 +211,43 @@ def _harness_side(e):
     return False
 
 
+def canon_digest(x):
+    """Digest of a rank's returned value: numbers, arrays and structure; strings are left out (paths)."""
+    h = hashlib.sha256()
+
+    def feed(v):
+        if isinstance(v, np.ndarray):
+            h.update(str(v.dtype).encode() + repr(v.shape).encode())
+            h.update(np.ascontiguousarray(v).tobytes())
+        elif isinstance(v, dict):
+            h.update(b'{')
+            for k in sorted(v, key=repr):
+                h.update(repr(k).encode())
+                feed(v[k])
+        elif isinstance(v, (list, tuple)):
+            h.update(b'[')
+            for y in v:
+                feed(y)
+            h.update(b']')
+        elif isinstance(v, (bool, int, float, complex, np.generic)) or v is None:
+            h.update(repr(v).encode())
+        elif isinstance(v, (bytes, bytearray)):
+            h.update(bytes(v))
+        else:
+            h.update(b'S')
+    feed(x)
+    return h.hexdigest()[:12]
+
+
 def _finish(res, w, results=None):
+    if w.sched.get('trace_payloads'):
+        tr = {}
+        for rec in w.log:
+            if rec[3] == 'coll':
+                tr.setdefault(int(rec[2]), []).append(hashlib.sha256(repr(rec[4:]).encode()).hexdigest()[:8] +
+                                                      ':' + str(rec[6]))
+        res['rank_traces'] = [{str(r): v for r, v in sorted(tr.items())}]
+        res['result_digests'] = [[canon_digest(x) for x in (results or [])]]
     res['events'] = w.gseq
     res['sim_time'] = round(w.sim_time(), 6)
     res['digest'] = w.digest()
@@ -287,6 +324,9 @@ class Multi:
         res['faults'] = faults
         res['probes'] = probes
         res['tape'] = [p['tape'] for p in self.parts]
+        if any('rank_traces' in p for p in self.parts):
+            res['rank_traces'] = [t for p in self.parts for t in p.get('rank_traces', [{}])]
+            res['result_digests'] = [t for p in self.parts for t in p.get('result_digests', [[]])]
         res['tape_len'] = sum(p['tape_len'] for p in self.parts)
         res['worlds'] = len(self.parts)
         if extra:
@@ -357,16 +397,112 @@ def gen_case(mod, base_seed, tier, i):
     case = mod.gen(rng, tier, i)
     case['seed'] = s
     case['idx'] = i
+    every = (getattr(mod, 'HASHSEED_EVERY', None) or {}).get(tier)
+    if os.environ.get('VERIF_HASHSEED_EVERY'):
+        every = int(os.environ['VERIF_HASHSEED_EVERY'])       # (for trying the mechanism on a small sample)
+    if every and i % every == every // 2 and case.get('kind') not in ('hashseed', 'sweep', 'driver') \
+            and not case.get('systematic'):
+        case['hashseeds'] = [1 + (s % 7), 77 + (s % 5), 1000 + (s % 97)]
     if 'sched' not in case:
         case['sched'] = simworld.random_sched(rng, s)
     case['sched']['seed'] = s
     return case
 
 
+def _trace_view(res):
+    return dict(status=res.get('status'), kind=res.get('kind'), message=str(res.get('message'))[:300],
+                rank_traces=res.get('rank_traces') or [], result_digests=res.get('result_digests') or [])
+
+
+def _first_trace_diff(a, b):
+    """(world, rank, position, what) of the first difference between two trace views, or None."""
+    ta, tb = a['rank_traces'], b['rank_traces']
+    if len(ta) != len(tb):
+        return dict(why='number of Worlds differs', a=len(ta), b=len(tb))
+    for wi, (x, y) in enumerate(zip(ta, tb)):
+        for r in sorted(set(x) | set(y), key=int):
+            ex, ey = x.get(r, []), y.get(r, [])
+            for k in range(max(len(ex), len(ey))):
+                ea = ex[k] if k < len(ex) else None
+                eb = ey[k] if k < len(ey) else None
+                if ea != eb:
+                    return dict(world=wi, rank=int(r), collective_number=k, a=ea, b=eb,
+                                why='this rank\'s contribution to a collective (operation, arguments or data sent) differs')
+    ra, rb = a['result_digests'], b['result_digests']
+    for wi, (x, y) in enumerate(zip(ra, rb)):
+        for r, (u, v) in enumerate(zip(x, y)):
+            if u != v:
+                return dict(world=wi, rank=r, why='what this rank computed differs (same communication)')
+    return None
+
+
+def hashseed_children(cid, case, seeds, timeout=900):
+    """The same case in fresh interpreters under other string-hash seeds: each returns its trace view."""
+    outs = []
+    sub = dict(case)
+    sub.pop('hashseeds', None)
+    for hs in seeds:
+        env = dict(os.environ)
+        env['PYTHONHASHSEED'] = str(int(hs))
+        env['VERIF_NO_EVIDENCE'] = '1'
+        env['VERIF_HASHCHILD'] = '1'
+        try:
+            p = subprocess.run([sys.executable, '-W', 'ignore', os.path.join(VERIF, 'sim', 'hashchild.py')],
+                               input=json.dumps(dict(check=cid, case=sub)), capture_output=True, text=True,
+                               env=env, timeout=timeout)
+        except subprocess.TimeoutExpired:
+            raise HarnessProblem('hash-seed child interpreter timed out')
+        if p.returncode != 0:
+            raise HarnessProblem('hash-seed child interpreter failed: ' + p.stderr[-800:])
+        outs.append(json.loads(p.stdout.strip().splitlines()[-1]))
+    return outs
+
+
+def _run_hashseed_invariant(mod, case, tape):
+    """Every real rank is an interpreter of its own with its own string-hash seed.  Ranks are threads of
+    one interpreter here, so the same case is run again in fresh interpreters under other seeds and every
+    rank's trace - per collective: operation, arguments, digest of the data it sends; at the end: digest of
+    what it returns - must be the same under every seed.  Then (induction over the collectives) a job whose
+    ranks have different seeds behaves exactly like these runs; a difference means some rank's behaviour
+    depends on its own seed, i.e. the ranks of a real job would disagree."""
+    c = dict(case)
+    c['sched'] = dict(case['sched'], trace_payloads=True, poison=True)
+    res = mod.run(c, tape)
+    if res.get('status') != 'ok':
+        return res
+    base = _trace_view(res)
+    try:
+        outs = hashseed_children(mod.ID, c, case['hashseeds'])
+    except HarnessProblem as e:
+        res.update(status='harness', kind='harness-api', message=str(e))
+        return res
+    for hs, o in zip(case['hashseeds'], outs):
+        if o['status'] == 'harness':
+            res.update(status='harness', kind='harness-api', message='hash-seed child: %s' % o.get('message'))
+            return res
+        if o['status'] != 'ok':
+            res.update(status='violation', kind='hashseed-dependent',
+                       message=jdump(dict(why='the case passes under this interpreter\'s hash seed and not under another',
+                                          hashseed=hs, child=dict(status=o['status'], kind=o['kind'], message=o['message']))),
+                       detail=dict(hashseed=hs, child=o['kind']))
+            return res
+        d = _first_trace_diff(base, o)
+        if d is not None:
+            d['hashseeds'] = [os.environ.get('PYTHONHASHSEED', 'random'), hs]
+            res.update(status='violation', kind='hashseed-dependent', message=jdump(d), detail=d)
+            return res
+    res.setdefault('probes', {})['hashseed_invariance_interpreters'] = len(outs)
+    res.setdefault('faults', {})['hash-seed-interpreter'] = res.get('faults', {}).get('hash-seed-interpreter', 0) + len(outs)
+    return res
+
+
 def run_case(mod, case, tape=None):
     t0 = _real_perf()
     try:
-        res = mod.run(case, tape)
+        if case.get('hashseeds') and case.get('kind') != 'hashseed' and not os.environ.get('VERIF_HASHCHILD'):
+            res = _run_hashseed_invariant(mod, case, tape)
+        else:
+            res = mod.run(case, tape)
     except BaseException as e:  # noqa
         res = dict(status='harness', prop=mod.ID, kind='harness-exception', message=repr(e),
                    detail=traceback.format_exc(), nontrivial=False, events=0, sim_time=0.0,
